@@ -189,28 +189,65 @@ def discharge(ob, axioms, tier="quick"):
 
 def _work(task):
     """Runs in a worker process: a fresh z3 context per obligation (verdicts do not depend on what was solved
-    before).  task = (index, [(label, smt2, timeout_ms, accept_sat)], cvc5_timeout_s)"""
-    idx, variants, cvc5_s = task
+    before).  task = (index, [(label, smt2, timeout_ms, accept_sat)], budget_s).  Portfolio on the full problem,
+    concurrently: z3 5.1 (API) and the older z3 4.8.12 binary (different E-matching/arithmetic heuristics); then
+    other random seeds; then cvc5.  Any `unsat` is a proof (also from a subset of the assumptions); only a `sat`
+    on the full problem counts as a refutation."""
+    idx, variants, budget_s = task
     import z3 as z
     total = 0.0
     last_reason = ""
-    full_smt2 = None
+    full_smt2 = [v[1] for v in variants if v[3]][0]
+    t_start = time.time()
+    old = None
+    path = None
+    if os.path.exists("/usr/bin/z3") and len(full_smt2) > 0:
+        with tempfile.NamedTemporaryFile("w", suffix=".smt2", delete=False) as f:
+            f.write(full_smt2)
+            path = f.name
+        old = subprocess.Popen(["/usr/bin/z3", f"-T:{int(budget_s)}", path], stdout=subprocess.PIPE, stderr=subprocess.DEVNULL, text=True)
+
+    def poll_old(wait=0.0):
+        nonlocal old
+        if old is None:
+            return None
+        try:
+            out, _ = old.communicate(timeout=wait) if wait > 0 else ((old.stdout.read(), None) if old.poll() is not None else (None, None))
+        except subprocess.TimeoutExpired:
+            return None
+        if out is None:
+            return None
+        old = None
+        res = out.strip().splitlines()[0] if out.strip() else "unknown"
+        return res if res in ("sat", "unsat") else "unknown"
+
+    def finish(*ret):
+        nonlocal old
+        if old is not None:
+            old.kill()
+            old.communicate()
+        if path:
+            try:
+                os.unlink(path)
+            except OSError:
+                pass
+        return ret
+
     for label, smt2, tmo, accept_sat in variants:
-        if accept_sat:
-            full_smt2 = smt2
+        ro = poll_old()
+        if ro == "unsat":
+            return finish(idx, "discharged", "z3-4.8.12", "all", time.time() - t_start, None, "")
         ctx = z.Context()
         sol = z.Solver(ctx=ctx)
         sol.set("timeout", tmo)
         try:
             sol.from_string(smt2)
-            t0 = time.time()
             r = str(sol.check())
-            total += time.time() - t0
         except z.Z3Exception as e:
             r = "unknown"
             last_reason = f"z3 exception: {e}"
         if r == "unsat":
-            return (idx, "discharged", "z3", label, total, None, "")
+            return finish(idx, "discharged", "z3", label, time.time() - t_start, None, "")
         if r == "sat" and accept_sat:
             m = sol.model()
             md = {}
@@ -219,42 +256,36 @@ def _work(task):
                     md[d.name()] = str(m[d])[:400]
                 except Exception:
                     pass
-            return (idx, "refuted", "z3", label, total, md, "")
+            return finish(idx, "refuted", "z3", label, time.time() - t_start, md, "")
         if r == "unknown":
             try:
                 last_reason = sol.reason_unknown()
             except Exception:
                 pass
-    if full_smt2 is not None and cvc5_s > 0:
-        # further members of the portfolio on the full problem: the older z3 binary (different arithmetic / E-matching
-        # heuristics), z3 with other random seeds, then cvc5.  Any `unsat` is a proof; `sat` is only taken from cvc5/z3-old
-        # as "refuted without model".
-        r4, dt4 = check_z3_cli(full_smt2, cvc5_s)
-        total += dt4
-        if r4 == "unsat":
-            return (idx, "discharged", "z3-4.8.12", "all", total, None, "")
-        for seed in (2, 7):
-            ctx = z.Context()
-            sol = z.Solver(ctx=ctx)
-            sol.set("timeout", int(cvc5_s * 500))
-            sol.set("random_seed", seed)
-            try:
-                sol.from_string(full_smt2)
-                t0 = time.time()
-                r = str(sol.check())
-                total += time.time() - t0
-            except z.Z3Exception:
-                r = "unknown"
-            if r == "unsat":
-                return (idx, "discharged", "z3", f"all/seed{seed}", total, None, "")
-        r3, dt3, info = check_cvc5(full_smt2, cvc5_s)
-        total += dt3
-        if r3 == "unsat":
-            return (idx, "discharged", "cvc5", "all", total, None, "")
-        if r3 == "sat":
-            return (idx, "refuted", "cvc5", "all", total, None, "cvc5 reports sat (no model extracted)")
-        last_reason += " | cvc5: " + info
-    return (idx, "unknown", "z3", "all", total, None, last_reason)
+    ro = poll_old(wait=max(0.1, budget_s - (time.time() - t_start)))
+    if ro == "unsat":
+        return finish(idx, "discharged", "z3-4.8.12", "all", time.time() - t_start, None, "")
+    if ro == "sat":
+        return finish(idx, "refuted", "z3-4.8.12", "all", time.time() - t_start, None, "z3 4.8.12 reports sat (no model extracted)")
+    for seed in (2, 7):
+        ctx = z.Context()
+        sol = z.Solver(ctx=ctx)
+        sol.set("timeout", int(budget_s * 500))
+        sol.set("random_seed", seed)
+        try:
+            sol.from_string(full_smt2)
+            r = str(sol.check())
+        except z.Z3Exception:
+            r = "unknown"
+        if r == "unsat":
+            return finish(idx, "discharged", "z3", f"all/seed{seed}", time.time() - t_start, None, "")
+    r3, dt3, info = check_cvc5(full_smt2, budget_s)
+    if r3 == "unsat":
+        return finish(idx, "discharged", "cvc5", "all", time.time() - t_start, None, "")
+    if r3 == "sat":
+        return finish(idx, "refuted", "cvc5", "all", time.time() - t_start, None, "cvc5 reports sat (no model extracted)")
+    last_reason += " | cvc5: " + info
+    return finish(idx, "unknown", "z3", "all", time.time() - t_start, None, last_reason)
 
 
 def discharge_all(obligs, axioms, tier="quick", procs=None):
@@ -265,13 +296,15 @@ def discharge_all(obligs, axioms, tier="quick", procs=None):
     tasks = []
     for i, ob in enumerate(obligs):
         variants = []
+        full = smt2_of(axioms, ob.assumptions, ob.goal)
+        variants.append(("all", full, 2000, True))
         lin = [a for a in ob.assumptions if not is_nonlinear(a)]
         if len(lin) < len(ob.assumptions) and not is_nonlinear(ob.goal):
             variants.append(("linear-subset", smt2_of(axioms, lin, ob.goal), 3000, False))
-        variants.append(("all", smt2_of(axioms, ob.assumptions, ob.goal), budget, True))
         qf = [a for a in ob.assumptions if not has_quant(a)]
         if len(qf) < len(ob.assumptions) and not has_quant(ob.goal):
-            variants.append(("quantifier-free-subset", smt2_of([], qf, ob.goal), 5000, False))
+            variants.append(("quantifier-free-subset", smt2_of([], qf, ob.goal), 3000, False))
+        variants.append(("all", full, budget, True))
         tasks.append((i, variants, budget / 1000.0))
     procs = procs or min(16, os.cpu_count() or 4)
     ctx = mp.get_context("fork")
@@ -281,6 +314,34 @@ def discharge_all(obligs, axioms, tier="quick", procs=None):
             ob.result, ob.backend, ob.strategy, ob.seconds, ob.reason = result, backend, label, secs, reason
             ob.model = model
     return obligs
+
+
+def _plain(task):
+    key, smt2, tmo = task
+    import z3 as z
+    ctx = z.Context()
+    sol = z.Solver(ctx=ctx)
+    sol.set("timeout", tmo)
+    t0 = time.time()
+    try:
+        sol.from_string(smt2)
+        r = str(sol.check())
+    except z.Z3Exception:
+        r = "unknown"
+    return key, r, time.time() - t0
+
+
+def run_plain(tasks, procs=None):
+    """tasks: [(key, smt2, timeout_ms)] -> {key: (result, seconds)} using the process pool."""
+    import multiprocessing as mp
+    if not tasks:
+        return {}
+    procs = procs or min(16, os.cpu_count() or 4)
+    out = {}
+    with mp.get_context("fork").Pool(processes=procs) as pool:
+        for key, r, dt in pool.imap_unordered(_plain, tasks, chunksize=4):
+            out[key] = (r, dt)
+    return out
 
 
 def second_opinion(ob, axioms, timeout_s=60):
